@@ -253,21 +253,27 @@ def fragmentOk (s : Bytes) : Bool :=
 def dirPart (p : Bytes) : Bytes :=
   (p.reverse.dropWhile (· ≠ slash)).reverse
 
+/-- "make relative path absolute": a url that does not start with `/` is appended to the
+directory of the request path -/
+def absolutize (oldPath url : Bytes) : Bytes :=
+  match url with
+  | 47 :: _ => url
+  | _ => dirPart (if oldPath = [] then [slash] else oldPath) ++ url
+
+/-- "clean up but preserve trailing slash" -/
+def cleanKeepSlash (p : Bytes) : Bytes :=
+  if hasSuffix p [slash] ∧ !hasSuffix (clean p) [slash] then clean p ++ [slash] else clean p
+
 /-- The Location header `http.Redirect(w, r, url, code)` sets (before `hexEscapeNonASCII`, the
-identity on the ASCII strings produced by `URL.String`), for a `url` that does not start
-with `//` (such strings are parsed as having a host and are left alone) and has no scheme. -/
+identity on the ASCII strings produced by `URL.String`), for a `url` without scheme: a url
+starting with exactly two slashes is parsed as having a host and left alone, so is one whose
+fragment does not parse; otherwise the path part is made absolute and cleaned. -/
 def redirectLocation (oldPath url : Bytes) : Bytes :=
   if hasPrefix url [slash, slash] ∧ !hasPrefix url [slash, slash, slash] then url
   else if !fragmentOk url then url
   else
-    let old := if oldPath = [] then [slash] else oldPath
-    let url := match url with
-      | 47 :: _ => url
-      | _ => dirPart old ++ url
-    let (p, q, hasQ) := cut 63 url
-    let cleaned := clean p
-    let cleaned := if hasSuffix p [slash] ∧ !hasSuffix cleaned [slash] then cleaned ++ [slash] else cleaned
-    if hasQ then cleaned ++ 63 :: q else cleaned
+    let c := cut 63 (absolutize oldPath url)
+    if c.2.2 then cleanKeepSlash c.1 ++ 63 :: c.2.1 else cleanKeepSlash c.1
 
 /-- `URL.String()` of a URL without scheme, user or fragment -/
 def urlString (u : Url) : Bytes :=
